@@ -39,6 +39,61 @@ MODE = {"scan": False, "strict": False, "snapshot": None}
 # snapshot: dict entry-point -> tuple of argument indices declared read-only
 
 
+def _ival(a):
+    return int(getattr(a, "value", a))
+
+
+def _size(a):
+    """Number of elements behind a pointer-like argument, or None when unknown."""
+    arr = getattr(a, "_arr", None)
+    if isinstance(arr, numpy.ndarray):
+        return arr.size
+    n = getattr(a, "_length_", None)  # ctypes arrays
+    if n is not None:
+        return int(n)
+    return None
+
+
+def _need(errs, name, what, have, need):
+    if have is not None and have < need:
+        errs.append("%s %s has %d elements, C reads/writes %d" % (name, what, have, need))
+
+
+def _rule_coefs_gto(name, a):
+    # (p, dp, exp_g, alphas, ngrids, nalpha, featid, extra_args)
+    errs = []
+    ng, na, fid = _ival(a[4]), _ival(a[5]), _ival(a[6])
+    _need(errs, name, "p", _size(a[0]), ng * na)
+    _need(errs, name, "dp", _size(a[1]), ng * na)
+    _need(errs, name, "exp_g", _size(a[2]), ng)
+    _need(errs, name, "alphas", _size(a[3]), na)
+    if fid == 3:  # se_erf_rinv: the kernel reads extra_args[0]
+        _need(errs, name, "extra_args", _size(a[7]), 1)
+    return errs
+
+
+def _rule_se_kernel(name, a):
+    # (out, outd, xin, xctrl, actrl, exps, n, nctrl, nfeat)
+    errs = []
+    n, nc, nf = _ival(a[6]), _ival(a[7]), _ival(a[8])
+    spin = 2 if name.endswith("_spin") else 1
+    _need(errs, name, "out", _size(a[0]), n)
+    _need(errs, name, "outd", _size(a[1]), spin * n * nf)
+    _need(errs, name, "xin", _size(a[2]), spin * n * nf)
+    _need(errs, name, "xctrl", _size(a[3]), spin * nc * nf)
+    _need(errs, name, "actrl", _size(a[4]), nc)
+    _need(errs, name, "exps", _size(a[5]), nf - (1 if name.endswith("_antisym") else 0))
+    return errs
+
+
+# entry point (without library prefix) -> rule; evaluated in strict mode only
+SIZE_RULES = {
+    "cider_coefs_gto_gq": _rule_coefs_gto, "cider_coefs_gto_qg": _rule_coefs_gto,
+    "evaluate_se_kernel": _rule_se_kernel, "evaluate_se_kernel_antisym": _rule_se_kernel,
+    "evaluate_se_kernel_spin": _rule_se_kernel,
+}
+
+
 def _arrays_of(args):
     out = []
     for i, a in enumerate(args):
@@ -78,6 +133,13 @@ class FuncProxy:
                     STRICT_ERRORS.append("%s arg%d non-contiguous shape=%s strides=%s" % (name, i, a.shape, a.strides))
                 if a.dtype not in (numpy.float64, numpy.int32, numpy.complex128, numpy.int64, numpy.uint8, numpy.int8, numpy.bool_):
                     STRICT_ERRORS.append("%s arg%d dtype=%s" % (name, i, a.dtype))
+        if MODE["strict"]:
+            rule = SIZE_RULES.get(name.split(".", 1)[-1])
+            if rule is not None:
+                try:
+                    STRICT_ERRORS.extend(rule(name, args))
+                except Exception as e:  # a rule must never break the call
+                    STRICT_ERRORS.append("%s size-rule-error %s" % (name, e))
         if MODE["snapshot"] and name in MODE["snapshot"]:
             snap = [(i, a, a.tobytes()) for i, a in arrs if i in MODE["snapshot"][name]]
         with _lock:
